@@ -86,6 +86,18 @@ type Case struct {
 	// FreeRaceG goroutines at once: in every serial order exactly one of them succeeds
 	FreeRace  []uint64 `json:"freerace,omitempty"`
 	FreeRaceG int      `json:"freeraceg,omitempty"`
+	// Churn (C04, C07): after the history, G goroutines allocate and free blocks of their own in
+	// a tight loop (Iter rounds each, at most Keep blocks kept); when they are done every block
+	// they took is free again, and each free block of the pool is then asked for by hint
+	Churn *Churn `json:"churn,omitempty"`
+}
+
+// Churn describes the allocate/free storm
+type Churn struct {
+	G      int  `json:"g"`
+	Iter   int  `json:"iter"`
+	Keep   int  `json:"keep"`
+	Hinted bool `json:"hinted,omitempty"` // every other allocation names the block the goroutine freed last
 }
 
 // ---- the reference model ------------------------------------------------
@@ -561,6 +573,12 @@ func Exec(c Case) (res core.Result) {
 		err := a.Free(rf.ipnet)
 		mustSucceed := rf.inBlock && m.held[rf.idx]
 		if mustSucceed {
+			if err != nil && c.Mode == "C04" {
+				// whether this Free may fail is C06's business; for C04 the Free was not successful,
+				// so the block is still outstanding and must not be handed out again
+				res.Classes = append(res.Classes, "failed-free-tolerated")
+				continue
+			}
 			if err != nil {
 				res.Viol = core.Violate("C06/"+fam+"/free-of-outstanding-fails", "op %d: Free(%s) of outstanding block %d failed: %v", i, rf.ipnet.String(), rf.idx, err)
 				return
@@ -584,6 +602,15 @@ func Exec(c Case) (res core.Result) {
 			res.Viol = v
 			return
 		}
+	}
+
+	if c.Churn != nil {
+		conc = true
+		if v := m.runChurn(a, c.Churn); v != nil {
+			res.Viol = v
+			return
+		}
+		res.Classes = append(res.Classes, "churn")
 	}
 
 	for _, k := range c.FreeRace {
@@ -692,7 +719,7 @@ func Exec(c Case) (res core.Result) {
 	case "C06":
 		res.NonTrivial = sawMustFailFree || len(c.FreeRace) > 0
 	case "C07":
-		res.NonTrivial = sawHintNonFirst
+		res.NonTrivial = sawHintNonFirst || c.Churn != nil
 	}
 	res.Classes = append(res.Classes, fam)
 	if sawFull {
@@ -822,6 +849,135 @@ func (m *model) runConcurrent(a allocators.Allocator, scripts [][]ConcOp) *core.
 	for _, mine := range heldG {
 		for _, idx := range mine {
 			m.held[idx] = true
+		}
+	}
+	return nil
+}
+
+// blockNet is the canonical prefix of block idx
+func (m *model) blockNet(idx uint64) net.IPNet {
+	if m.c.V6 {
+		ip, _ := m.addr6(new(big.Int).SetUint64(idx), 0)
+		return net.IPNet{IP: ip, Mask: net.CIDRMask(m.c.Page, 128)}
+	}
+	return net.IPNet{IP: u32ip(m.c.Start+uint32(idx), false), Mask: net.CIDRMask(32, 32)}
+}
+
+// runChurn: goroutines take and release blocks of their own as fast as they can. Every serial
+// order of these calls leaves exactly the blocks of the sequential phase outstanding, so
+// afterwards a hint on any other block names a free block and must be honoured (C07), and no
+// goroutine may ever be given a block somebody holds (C04).
+func (m *model) runChurn(a allocators.Allocator, ch *Churn) *core.Violation {
+	owner := make([]atomic.Int32, m.n)
+	for idx := range m.held {
+		owner[idx].Store(-1)
+	}
+	var (
+		wg    sync.WaitGroup
+		vmu   sync.Mutex
+		viol  *core.Violation
+		start = make(chan struct{})
+	)
+	report := func(v *core.Violation) {
+		vmu.Lock()
+		if viol == nil {
+			viol = v
+		}
+		vmu.Unlock()
+	}
+	fam := "v4"
+	if m.c.V6 {
+		fam = "v6"
+	}
+	for g := 0; g < ch.G; g++ {
+		wg.Add(1)
+		go func(g int) {
+			defer wg.Done()
+			defer func() {
+				if r := recover(); r != nil {
+					core.HarnessPanic(r)
+					report(core.Violate(m.c.Mode+"/panic", "allocator panicked in the allocate/free storm: %v", r))
+				}
+			}()
+			<-start
+			var mine []uint64
+			last, haveLast := uint64(0), false
+			release := func(j int) bool {
+				idx := mine[j]
+				mine = append(mine[:j], mine[j+1:]...)
+				owner[idx].Store(0)
+				if err := a.Free(m.blockNet(idx)); err != nil {
+					report(core.Violate("C06/"+fam+"/free-of-outstanding-fails", "storm: goroutine %d: Free of its own block %d failed: %v", g, idx, err))
+					return false
+				}
+				last, haveLast = idx, true
+				return true
+			}
+			for it := 0; it < ch.Iter; it++ {
+				var hint net.IPNet
+				if ch.Hinted && haveLast && it%2 == 1 {
+					hint = m.blockNet(last)
+					if !m.c.V6 {
+						hint.Mask = nil
+					}
+				}
+				got, err := a.Allocate(hint)
+				if err == nil {
+					idx, v := m.checkBlock(got, resolvedHint{v6Canon: hint.IP != nil && m.c.V6, canonLen: m.c.Page})
+					if v != nil {
+						v.Message = fmt.Sprintf("storm: goroutine %d: %s", g, v.Message)
+						report(v)
+						return
+					}
+					if !owner[idx].CompareAndSwap(0, int32(g+1)) {
+						report(core.Violate("C04/"+fam+"/block-handed-out-twice", "storm: goroutine %d was given block %d (%s) which goroutine/phase %d still holds", g, idx, got.String(), owner[idx].Load()))
+						return
+					}
+					mine = append(mine, idx)
+				}
+				for len(mine) > ch.Keep || (err != nil && len(mine) > 0) {
+					if !release(0) {
+						return
+					}
+					err = nil
+				}
+			}
+			for len(mine) > 0 {
+				if !release(len(mine) - 1) {
+					return
+				}
+			}
+		}(g)
+	}
+	close(start)
+	if !core.WaitTimeout(&wg, nil, 60*time.Second) {
+		return core.Violate(m.c.Mode+"/wedged", "allocate/free storm: allocator calls did not return within 60 s")
+	}
+	if viol != nil {
+		return viol
+	}
+	// every block outside the sequential phase's holdings is free now: ask for each by hint
+	probed := 0
+	for idx := uint64(0); idx < m.n && probed < 192; idx++ {
+		if m.held[idx] {
+			continue
+		}
+		probed++
+		hint := m.blockNet(idx)
+		got, err := a.Allocate(hint)
+		if err != nil {
+			return core.Violate("C05/"+fam+"/alloc-fails-while-not-full", "after the storm: Allocate(%s) failed (%v) with %d of %d blocks outstanding", hint.String(), err, len(m.held), m.n)
+		}
+		j, v := m.checkBlock(got, resolvedHint{v6Canon: m.c.V6, canonLen: m.c.Page})
+		if v != nil {
+			v.Message = "after the storm: " + v.Message
+			return v
+		}
+		if j != idx {
+			return core.Violate("C07/"+fam+"/hint-on-free-block-not-honoured", "after %d goroutines took and released blocks %d times each, every block they used was freed successfully, yet the hint %s on free block %d was answered with block %d (%s)", ch.G, ch.Iter, hint.String(), idx, j, got.String())
+		}
+		if err := a.Free(hint); err != nil {
+			return core.Violate("C06/"+fam+"/free-of-outstanding-fails", "after the storm: Free(%s) of outstanding block %d failed: %v", hint.String(), idx, err)
 		}
 	}
 	return nil
